@@ -31,5 +31,7 @@ meta = {
     "check_result": {"check": "./check %s --tier quick (VF_REPO=<worktree with the change>)" % pid, "exit": r.get("rc"), "caught": r.get("rc") == 1,
                      "keys": keys[:8], "wall_s": r.get("wall_s"), "replay_on_change_exit": r.get("replay_mutant_rc"), "replay_on_clean_exit": r.get("replay_clean_rc")},
 }
+if d.get("first_result"):
+    meta["first_version_of_the_check"] = {"exit": d["first_result"].get("exit"), "caught": d["first_result"].get("exit") == 1}
 json.dump(meta, open(os.path.join(dst, "meta.json"), "w"), indent=1)
 print("kept %s-%s caught=%s keys=%s" % (pid, x, meta["check_result"]["caught"], keys[:3]))
